@@ -13,20 +13,31 @@ RULE = ('for every registered JSON-RPC method (28, taken from REGISTER_APIFUNCTI
         'messages with no/newer/older "ts"; check results from the command endpoint; '
         'event::ExecuteCommand with an "endpoint" argument (forwarding): sender relation x target endpoint (none, unknown name, receiver itself, own-zone peer, child, grandchild, parent, sibling, unrelated) x claimed originZone x checkable (missing, own zone, child, grandchild, global, zone-less) x capability of the child endpoints x accept_commands, receiver being / not being the routing master of its zone, receivers at the root, in the middle and at a leaf - observed: which zones got an event::ExecuteCommand / event::ExecutedCommand queued; '
         'config::UpdateObject with the zone named by the message (none, unknown name, own, parent, child, sibling, unrelated, global) x zone of the existing object / of the config text of the new object (observed: zone of the created object), config::DeleteObject of zoned runtime objects; '
-        'then random forests (4-9 zones, random receiver, sender, object, flags, forwarding targets). '
+        'related objects in DIFFERENT zones (family cross-zone-objects: 28 groups Host / its Service / the attached Notification-on-service, Notification-on-host, Comment, Downtime with zone attributes '
+        'set independently to the receiver\'s zone, parent, child, grandchild, sibling, unrelated, global, none): every handler that names an object x every choice of the object named (host / service, '
+        'the service\'s / the host\'s notification, comment / downtime / an unknown object type) x the senders for which access to the object changed differs from access to a related object, '
+        'the trusted peer relaying for other zones, other receivers - observed additionally: the zones of ALL fixture objects whose state changed (plain setters); '
+        'local command execution (family command-kinds): command_type check / event / notification / unknown x "source" present or not x accept_commands x command exists or not x deadline passed x '
+        'params.host naming a local checkable or not x entitled and other senders - observed: which kind of native command ran (after the remote-check thread drained) and what was queued for the sender '
+        '(ExecutedCommand exit code / UNKNOWN check result); '
+        'then random forests (4-9 zones, random receiver, sender, object, flags, forwarding targets, cross groups, command kinds). '
         'Each message goes through the real JsonRpcConnection::MessageHandler with parameters that are prepared so that an accepted message has a visible effect. '
         'non-trivial = the case contains at least one applied and one refused message; distinct = distinct script text')
 TRUSTED = ['model: coq/Msg/MzModel.v (transcription of Zone::IsChildOf/CanAccessObject, JsonRpcConnection ctor + MessageHandler origin construction, '
            'and one normalised origin-check pattern per handler), coq/Msg/MzFwd.v (the "endpoint" branch of ExecuteCommandAPIHandler, SyncRelayMessage/RelayMessageOne at zone granularity), '
-           'coq/Msg/MzCfg.v (params.zone of config::UpdateObject)',
+           'coq/Msg/MzCfg.v (params.zone of config::UpdateObject), coq/Msg/MzObj.v (which object\'s zone the entitlement test reads: follows the generated fact f_mz_tested), '
+           'coq/Msg/MzExec.v (ClusterEvents::ExecuteCheckFromQueue per command type; what a command reports after it ran is not modelled - the harness\'s native commands only count executions)',
            'source facts re-extracted each run: tools/facts_c13.py normalises the refusal checks of all REGISTER_APIFUNCTION handlers into coq/Facts/Facts_c13.v, '
            'lists every registration (method, handler function, file; number of macro uses; registrations bypassing the macro), decides per handler whether the recognised checks '
            'stand at the top level and precede every effect (regex-based scan: pure accessors and writes to message-local data are not effects), and recognises the shapes of the forwarding branch, '
-           'of RelayMessageOne/SyncRelayMessage and of the params.zone test; '
+           'of RelayMessageOne/SyncRelayMessage and of the params.zone test; per handler the relation between the variable handed to CanAccessObject and the variables the handler changes after its checks '
+           '(addressed / checkable_of / host_of / other / none / unknown - unknown is logged and left to the run); for ExecuteCheckFromQueue that the accept_commands branch is a top-level statement '
+           'every path of which returns (else the flag is unrecognised), its reply shape and the three command-type branches (logged when not recognised); '
            'the specification side (which class each method belongs to, coq/Msg/MzModel.v mz_class_table) is hand-written - it is the statement\'s classification of the methods',
            'harness/ops_mz.cpp: builds zones/endpoints/objects from config text, sets ApiListener::m_Instance/m_LocalEndpoint/accept flags and Endpoint capabilities directly (no PKI, no network), '
            'calls the private JsonRpcConnection::MessageHandler on a connection object over an unconnected stream, decodes the JSON strings queued for the other endpoints; '
-           'script fields oz= (zone attribute of the addressed object) and ce= (sender is the command endpoint) are computed by the generator from the same forest; '
+           'script fields oz= (zone attribute of the object the handler CHANGES), ckz= / hz= (zone of its checkable / host) and ce= (sender is the command endpoint) are computed by the generator from the same forest; '
+           'the harness brings the related checkable of a cross group into the same prepared state as the one named (so that a stray write to it shows); '
            'ocaml/ops_mz.ml derives "who is connected" (two endpoints per zone, receiver a = routing master) from the script',
            'hook H1 (virtual clock) in lib/base/utility.cpp']
 ASSUMPTIONS = ['objects held by a node are in its own zone, below it, or global (hypothesis mz_placed of C13_sound; cases outside it are still compared with the model)',
@@ -34,7 +45,10 @@ ASSUMPTIONS = ['objects held by a node are in its own zone, below it, or global 
                'forwarding theorems about relay zones assume no global zone among the ancestors of the target zone (global zones have no endpoints and no children in any generated forest)',
                'the relay model is at zone granularity: which endpoint of a zone gets the copy (std::set order of Endpoint pointers) is not modelled',
                'reading of the statement for forwarded commands: accept_commands governs EXECUTION on a node; passing a command down to a child zone is decided by zone relations alone (that is what the code does: C13_forward_ignores_accept_flags)',
-               'config::Update is exercised up to the staging directory (no validation child process)']
+               'config::Update is exercised up to the staging directory (no validation child process)',
+               'the changed-objects observation (chz=) is made for plain setters only (SetNextCheck, SetLastCheckStarted, SetNextNotification, SetForceNext*, Set/ClearAcknowledgement, UpdateExecutions, SetRemovalInfo): '
+               'a check result legitimately triggers follow-up processing on other objects of the receiver',
+               'no registered handler names a Dependency; config::UpdateObject / DeleteObject decide by the sender\'s zone and accept_config only, never by the zone of the object (C13_update_object_zone_param)']
 
 METHODS = ['event::CheckResult', 'event::SetNextCheck', 'event::SetLastCheckStarted', 'event::SetStateBeforeSuppression',
            'event::SetSuppressedNotifications', 'event::SetSuppressedNotificationTypes', 'event::SetNextNotification',
@@ -53,9 +67,18 @@ EXPENSIVE = {'config::DeleteObject': 0.35, 'pki::RequestCertificate': 0.6, 'pki:
 CANON = ['-', '0', '1', '2', '3', '1', '-', '6', 'g']     # 0 gp, 1 parent, 2 receiver, 3 child, 4 grandchild, 5 sibling, 6 unrelated, 7 its child, 8 global
 
 
+NOTIF_METHODS = {'event::SetNextNotification', 'event::SetSuppressedNotificationTypes', 'event::UpdateLastNotifiedStatePerUser',
+                 'event::ClearLastNotifiedStatePerUser', 'event::NotificationSentUser', 'event::NotificationSentToAllUsers'}
+PLAIN_SETTERS = {'event::SetNextCheck', 'event::SetLastCheckStarted', 'event::SetNextNotification', 'event::SetForceNextCheck',
+                 'event::SetForceNextNotification', 'event::SetAcknowledgement', 'event::ClearAcknowledgement', 'event::UpdateExecutions',
+                 'event::SetRemovalInfo'}
+CK_BOOKKEEPING = {'event::SetStateBeforeSuppression', 'event::SetSuppressedNotifications', 'event::SendNotifications'}
+
+
 class Forest:
-    def __init__(self, tid, par):
+    def __init__(self, tid, par, xg=()):
         self.tid, self.par = tid, par
+        self.xg = list(xg)      # cross groups (h, s, o): Host in zone h, Service in s, notifications/comment/downtime in o ('n' = none)
         self.n = len(par)
         self.real = [i for i in range(self.n) if par[i] != 'g']
         self.glob = [i for i in range(self.n) if par[i] == 'g']
@@ -64,13 +87,39 @@ class Forest:
         return [i for i in range(self.n) if self.par[i] == str(z)]
 
     def decl(self):
-        return 'mz_tree id=%d z=%s' % (self.tid, ','.join(self.par))
+        x = (' x=' + ','.join('%s_%s_%s' % g for g in self.xg)) if self.xg else ''
+        return 'mz_tree id=%d z=%s%s' % (self.tid, ','.join(self.par), x)
 
 
-def msg(F, recv, snd, method, obj, auth=1, ident='ep', claim='-', ts='none', ac=1, ak=1, xz=None, var=None, xt=None, xcap=1, xh=1, rep='a', zp=None, cz=None):
-    """obj: int zone | 'nz' | ('k', zone).  Computes the model-facing oz= / ce= fields."""
+def _zs(z):
+    return '-' if z in ('n', None) else str(z)
+
+
+def msg(F, recv, snd, method, obj, auth=1, ident='ep', claim='-', ts='none', ac=1, ak=1, xz=None, var=None, xt=None, xcap=1, xh=1, rep='a', zp=None, cz=None,
+        ck=None, nt=None, ro=None, q=None):
+    """obj: int zone | 'nz' | ('k', zone) | ('x', h, s, o).  Computes the model-facing fields: oz= zone of the object the
+    handler CHANGES, ckz= / hz= zone of that object's checkable / host (when they differ), ce= sender is the command endpoint.
+    ck=h|s which checkable is named, nt=n|hn the service's / the host's notification, ro=c|d comment / downtime;
+    q = dict(ct, src, dl, cx, hl): the command-execution family of event::ExecuteCommand."""
     ce = 0
-    if obj == 'nz':
+    rel = ''
+    if isinstance(obj, tuple) and obj[0] == 'x':
+        _, h, sv, o = obj
+        tag = 'x%s_%s_%s' % (h, sv, o)
+        ck = ck or 'h'
+        nt = nt or 'n'
+        ro = ro or 'c'
+        ckzone = sv if ck == 's' else h
+        if method in NOTIF_METHODS:
+            oz, ckz = _zs(o), _zs(sv if nt == 'n' else h)
+        elif method == 'event::SetRemovalInfo':
+            oz, ckz = _zs(o), _zs(sv if ro == 'd' else h)
+        else:
+            oz, ckz = _zs(ckzone), _zs(ckzone)
+        rel = ' ckz=%s hz=%s' % (ckz, _zs(h))
+        if method in PLAIN_SETTERS:
+            rel += ' chz=1'      # observe WHICH objects changed (plain setters only: no follow-up processing on the receiver)
+    elif obj == 'nz':
         tag, oz = 'nz', '-'
     elif isinstance(obj, tuple):
         z = obj[1]
@@ -82,9 +131,16 @@ def msg(F, recv, snd, method, obj, auth=1, ident='ep', claim='-', ts='none', ac=
         tag = str(obj)
         if F.par[obj] == 'g':
             oz = str(obj) if method in NOTIF_ADDR else '-'
+            if method in NOTIF_ADDR:
+                rel = ' ckz=- hz=-'        # the global-zone fixture: notification/comment in the global zone, their checkable in none
         else:
             oz = str(obj)
-    extra = ''
+    extra = rel
+    for k, v in (('ck', ck), ('nt', nt), ('ro', ro)):
+        if v:
+            extra += ' %s=%s' % (k, v)
+    if q:
+        extra += ' ct=%s src=%d dl=%d cx=%d hl=%d' % (q['ct'], q.get('src', 0), q.get('dl', 0), q.get('cx', 1), q.get('hl', 0))
     if method == 'event::ExecutedCommand':
         if xz is None:
             xz = obj if isinstance(obj, int) and F.par[obj] != 'g' else recv
@@ -113,6 +169,53 @@ def _below(F, q, r):
         if F.par[q] in ('-', 'g'):
             return False
         q = int(F.par[q])
+
+
+def _access(F, recv, sz, oz):
+    """Zone::CanAccessObject of the sender's zone sz for an object whose zone attribute is oz ('n' = none -> the receiver's zone)"""
+    z = recv if oz in ('n', None) else oz
+    if F.par[z] == 'g':
+        return True
+    return _below(F, z, sz)
+
+
+# related objects in DIFFERENT zones (canonical forest, receiver 2): (host zone, service zone, zone of the attached objects)
+XGROUPS = [(2, 3, 2), (3, 2, 3), (3, 4, 3), (4, 3, 4), (1, 2, 1), (2, 1, 2), (3, 5, 3), (5, 3, 5),          # service vs host
+           (3, 3, 2), (2, 2, 3), (3, 3, 1), (4, 4, 3), (3, 3, 4), (5, 5, 2), (2, 2, 5), (3, 3, 8), (2, 2, 8),  # attached vs checkable
+           (3, 3, 'n'), ('n', 'n', 3), (2, 2, 1), (1, 1, 2), (4, 4, 2), (6, 6, 2),
+           (3, 4, 2), (2, 3, 1), (4, 3, 2), (3, 2, 8), ('n', 3, 5)]                                           # all three differ
+
+
+def _cross_variants(rnd, frac):
+    """(method, kwargs) for every handler that names an object, with each choice of the object named"""
+    out = []
+    for m in sorted(CHECKABLE_ADDR):
+        for ck in 'hs':
+            out.append((m, dict(ck=ck)))
+    for nt in ('n', 'hn'):
+        out.append(('event::SetNextNotification', dict(nt=nt, ck='s' if nt == 'n' else 'h')))
+    for ro in 'cdx':       # x: an object_type the handler does not know
+        if ro != 'x' or rnd.random() < 0.3:
+            out.append(('event::SetRemovalInfo', dict(ro=ro)))
+    for m in sorted(NOTIF_METHODS - {'event::SetNextNotification'}):
+        for nt in ('n', 'hn'):
+            if rnd.random() < frac:
+                out.append((m, dict(nt=nt, ck='s' if nt == 'n' else 'h')))
+    for m in sorted(CK_BOOKKEEPING) + ['event::ExecutedCommand']:
+        for ck in 'hs':
+            if rnd.random() < frac:
+                out.append((m, dict(ck=ck)))
+    return out
+
+
+def _changed_and_related(method, g, kw):
+    h, sv, o = g
+    ckzone = sv if kw.get('ck', 'h') == 's' else h
+    if method in NOTIF_METHODS:
+        return o, [sv if kw.get('nt', 'n') == 'n' else h, h]
+    if method == 'event::SetRemovalInfo':
+        return o, [sv if kw.get('ro', 'c') == 'd' else h, h]
+    return ckzone, [h, sv, o]
 
 
 def generate(seed, tier):
@@ -218,6 +321,77 @@ def generate(seed, tier):
             msgs.append(('exec-forward', F, msg(F, r, snd, 'event::ExecuteCommand', rnd.choice([q for q in F.real] + ['nz', 8]),
                                                 claim=rnd.choice(['-', '-', str(rnd.choice(F.real)), 'x']), ak=rnd.randint(0, 1),
                                                 xt=rnd.choice(pool), xcap=rnd.choice([1, 1, 1, 0]), xh=rnd.choice([1, 1, 1, 0]))))
+    # ---- related objects in different zones: for EVERY handler that names an object, and every choice of the object named
+    # (host / service, the service's / the host's notification, comment / downtime), all senders for which access to the
+    # object CHANGED differs from access to one of its related objects (checkable, host, attached objects), plus others
+    X = Forest(2, CANON, XGROUPS)
+    xsenders = [('0a', 1, 'ep'), ('1a', 1, 'ep'), ('2b', 1, 'ep'), ('3a', 1, 'ep'), ('4a', 1, 'ep'), ('5a', 1, 'ep'), ('6a', 1, 'ep')]
+    for g in XGROUPS:
+        for (m, kw) in _cross_variants(rnd, 0.12 * scale):
+            changed, related = _changed_and_related(m, g, kw)
+            dec = [sd for sd in xsenders if sd[0] != '2b' and
+                   any(_access(X, recv, int(sd[0][:-1]), changed) != _access(X, recv, int(sd[0][:-1]), rz) for rz in related)]
+            pick = list(dec)
+            rest = [sd for sd in xsenders if sd not in dec]
+            if len(pick) > 2 and scale <= 1:
+                pick = rnd.sample(pick, 2)
+            if rest and rnd.random() < (0.5 if pick else 1.0):
+                pick.append(rnd.choice(rest))
+            for (snd, auth, ident) in pick:
+                claim = '-'
+                if snd == '2b' and rnd.random() < 0.7:
+                    claim = rnd.choice(['3', '1', '4', '5', '2', '8'])     # the trusted peer relays for another zone
+                xz = rnd.choice([2, 3, 1, 5]) if m == 'event::ExecutedCommand' else None
+                msgs.append(('cross-zone-objects', X, msg(X, recv, snd, m, ('x',) + g, auth=auth, ident=ident, claim=claim, xz=xz, **kw)))
+    # the trusted own-zone peer relaying for a child / parent / sibling zone, and anonymous senders, on a sample
+    for _ in range(int(60 * scale)):
+        g = rnd.choice(XGROUPS)
+        (m, kw) = rnd.choice(_cross_variants(rnd, 1.0))
+        snd, auth, ident, claim = rnd.choice([('2b', 1, 'ep', '3'), ('2b', 1, 'ep', '1'), ('2b', 1, 'ep', '4'), ('2b', 1, 'ep', '5'),
+                                              ('2b', 1, 'ep', '-'), ('3a', 0, 'ep', '-'), ('1a', 1, 'unk', '-'), ('2a', 1, 'ep', '3')])
+        xz = rnd.choice([2, 3, 1, 5]) if m == 'event::ExecutedCommand' else None
+        msgs.append(('cross-zone-objects', X, msg(X, recv, snd, m, ('x',) + g, auth=auth, ident=ident, claim=claim, xz=xz, **kw)))
+    # other receivers on the same fixture (parent, child, grandparent, sibling)
+    for _ in range(int(80 * scale)):
+        g = rnd.choice(XGROUPS)
+        (m, kw) = rnd.choice(_cross_variants(rnd, 0.3))
+        r = rnd.choice([1, 3, 0, 5, 4])
+        snd = '%d%s' % (rnd.choice(X.real), rnd.choice('ab'))
+        if snd == '%da' % r:
+            snd = '%db' % r
+        xz = rnd.choice(X.real) if m == 'event::ExecutedCommand' else None
+        msgs.append(('cross-zone-objects', X, msg(X, r, snd, m, ('x',) + g, xz=xz,
+                                                  claim=rnd.choice(['-', '-', str(rnd.choice(X.real))]), **kw)))
+    # ---- command execution (ExecuteCheckFromQueue): every kind of command x "source" x accept_commands x command exists,
+    # deadline passed / not, params.host naming a checkable of the receiver or not; entitled and other senders
+    KINDS = ['check', 'event', 'notif', 'other']
+    for (snd, auth, ident) in senders + [('2a', 1, 'ep')]:
+        entitled = auth == 1 and ident == 'ep' and snd[0] in '12'
+        combos = [(ct, src, ak, cx) for ct in KINDS for src in (0, 1) for ak in (0, 1) for cx in (0, 1)]
+        if not entitled:
+            combos = rnd.sample(combos, 6)
+        elif snd != '1a' and scale <= 1:
+            combos = [cb for cb in combos if cb[3] == 1 or rnd.random() < 0.4]
+        for (ct, src, ak, cx) in combos:
+            claim = rnd.choice(['-', '-', '-', '1', '3', 'x']) if snd[0] == '2' else '-'
+            msgs.append(('command-kinds', F, msg(F, recv, snd, 'event::ExecuteCommand', rnd.choice([2, 3, 'nz']), auth=auth, ident=ident,
+                                                claim=claim, ak=ak, ac=rnd.randint(0, 1), ts=rnd.choice(['none', 'none', 'none', 'new', 'old']),
+                                                q=dict(ct=ct, src=src, dl=0, cx=cx, hl=rnd.randint(0, 1)))))
+    for snd in ('1a', '1b', '2b'):          # entitled sender, flag on, command present: every kind with and without "source"
+        for ct in KINDS:
+            for src in (0, 1):
+                msgs.append(('command-kinds', F, msg(F, recv, snd, 'event::ExecuteCommand', rnd.choice([2, 3, 'nz']), ak=1, ac=rnd.randint(0, 1),
+                                                    q=dict(ct=ct, src=src, dl=0, cx=1, hl=rnd.randint(0, 1)))))
+    for _ in range(int(16 * scale)):       # deadline in the past (only read with "source")
+        snd = rnd.choice(['1a', '2b', '1b'])
+        msgs.append(('command-kinds', F, msg(F, recv, snd, 'event::ExecuteCommand', 2, ak=rnd.randint(0, 1),
+                                            q=dict(ct=rnd.choice(KINDS), src=rnd.choice([1, 1, 1, 0]), dl=1, cx=rnd.randint(0, 1), hl=rnd.randint(0, 1)))))
+    for r in (0, 4, 6, 3):                 # other receivers: root (no parent), leaf, unrelated root
+        for _ in range(int(8 * scale)):
+            sz = rnd.choice([r] + ([int(F.par[r])] if F.par[r] not in '-g' else []) + [rnd.choice(F.real)])
+            snd = '%d%s' % (sz, 'b' if sz == r else rnd.choice('ab'))
+            msgs.append(('command-kinds', F, msg(F, r, snd, 'event::ExecuteCommand', r, ak=rnd.randint(0, 1),
+                                                q=dict(ct=rnd.choice(KINDS), src=rnd.randint(0, 1), dl=0, cx=rnd.choice([1, 1, 0]), hl=rnd.randint(0, 1)))))
     # command endpoint: host k<z> is checked by the first endpoint of z's first child zone
     for z in (0, 1, 2, 3, 6):
         ch = F.children(z)[0]
@@ -259,7 +433,13 @@ def generate(seed, tier):
                 par.append('-')
             else:
                 par.append(str(rnd.choice(nonglob)))
-        G = Forest(100 * (seed % 1000) + 10 + fi, par)
+        gnon = [j for j in range(n) if par[j] != 'g']
+        gx = []
+        for _ in range(5):
+            gg = (rnd.choice(gnon + ['n']), rnd.choice(gnon + ['n']), rnd.choice(list(range(n)) + ['n']))
+            if gg not in gx and len(set(gg)) > 1:
+                gx.append(gg)
+        G = Forest(100 * (seed % 1000) + 10 + fi, par, gx)
         for _ in range(int(300 * scale)):
             m = rnd.choice(METHODS)
             if not keep(m, 0.5):
@@ -291,7 +471,18 @@ def generate(seed, tier):
                 claim = rnd.choice([str(rnd.randrange(G.n)), str(rnd.randrange(G.n)), 'x', str(r), str(z)])
             xz = rnd.choice(G.real) if m == 'event::ExecutedCommand' else None
             xkw = {}
-            if m == 'event::ExecuteCommand' and rnd.random() < 0.8:
+            if G.xg and rnd.random() < 0.3 and (m in OBJ_METHODS or m in NOTIF_METHODS or m in CK_BOOKKEEPING):
+                obj = ('x',) + rnd.choice(G.xg)
+                xkw = dict(ck=rnd.choice('hs'), ro=rnd.choice('cd'))
+                xkw['nt'] = 'n' if xkw['ck'] == 's' else 'hn'
+            if m == 'event::ExecuteCommand' and rnd.random() < 0.25:
+                if rnd.random() < 0.7:
+                    sz = rnd.choice([r] + ([int(G.par[r])] if G.par[r] not in '-g' else []))
+                    snd = '%d%s' % (sz, 'b' if sz == r else rnd.choice('ab'))
+                xkw = dict(q=dict(ct=rnd.choice(['check', 'event', 'notif', 'other']), src=rnd.randint(0, 1), dl=1 if rnd.random() < 0.1 else 0,
+                                  cx=rnd.choice([1, 1, 0]), hl=0))
+                obj = r
+            if m == 'event::ExecuteCommand' and 'q' not in xkw and rnd.random() < 0.8:
                 if rnd.random() < 0.7:       # aim at an accepted stage 1: sender from the own or the parent zone
                     sz = rnd.choice([r] + ([int(G.par[r])] if G.par[r] not in '-g' else []))
                     snd = '%d%s' % (sz, rnd.choice('ab'))
@@ -411,7 +602,27 @@ def extra_stats(cases, impl):
             if 'zp' in f:
                 zk = 'none' if f['zp'] == 'e' else 'unknown-name' if f['zp'] == 'x' else ('same-as-object' if f['zp'] == f.get('oz') else 'other-known-zone')
                 zpc[zk + (' applied' if ' app=1' in o else ' not_applied')] += 1
-    return {'exec_forwarding': dict(sorted(fwd.items())), 'update_object_zone_named_by_message': dict(sorted(zpc.items())),
+    cross = collections.Counter()
+    kinds_q = collections.Counter()
+    for c in cases:
+        ml = _msg_lines(c)
+        il = [l for l in impl.get(c['id'], []) if l.startswith('msg ')]
+        for s, o in zip(ml, il):
+            f = dict(t.split('=', 1) for t in s.split()[1:] if '=' in t)
+            ob = dict(t.split('=', 1) for t in o.split('#')[0].split()[1:] if '=' in t)
+            if f.get('obj', '').startswith('x'):
+                rel = 'related-zone-differs' if (f.get('ckz', f['oz']) != f['oz'] or f.get('hz', f['oz']) != f['oz']) else 'same-zones'
+                cross[rel + (' applied' if ob.get('app') == '1' else ' not_applied')] += 1
+                if 'chz' in ob:
+                    cross['changed_objects_observed'] += 1
+                    if ',' in ob['chz']:
+                        cross['more_than_one_zone_changed'] += 1
+            if 'ct' in f:
+                k = 'ct=%s src=%s ak=%s cx=%s' % (f['ct'], f['src'], f['ak'], f['cx'])
+                kinds_q[k + ' -> ex=%s rp=%s' % (ob.get('ex'), ob.get('rp'))] += 1
+                kinds_q['executed' if ob.get('ex', '-') != '-' else 'not_executed'] += 1
+    return {'cross_zone_objects': dict(sorted(cross.items())), 'command_kinds': dict(sorted(kinds_q.items())),
+            'exec_forwarding': dict(sorted(fwd.items())), 'update_object_zone_named_by_message': dict(sorted(zpc.items())),
             'messages_under_the_receivers_own_identity': selfc,
             'messages_applied': applied, 'messages_refused_or_inert': refused,
             'accepted_messages_with_visible_effect': 'all: the model line app=1 means "authorised and effectful"; any accepted message without a visible change would be a trace mismatch (mismatches are reported above)',
